@@ -63,9 +63,15 @@ def buckets(tier):
     data = [U["bits"], U["bytes"], model.prefixed(P["Kibi"], U["bytes"]), model.prefixed(P["Mebi"], U["bits"]),
             model.prefixed(P["Kilo"], U["bits"]), anon(U["bytes"], model.mag_ratio(3, 5), "B*3/5"),
             model.prefixed(P["Gibi"], U["bytes"])]
+    # units that differ ONLY in origin (same dimension, magnitude and, for the anonymous ones, scale factor):
+    # quantity-wise they are equivalent, so every tie-breaker of the canonical ordering is exercised
+    K, C, F = U["kelvins"], U["celsius"], U["fahrenheit"]
+    temp = [K, C, F, anon(C, model.mag_int(2), "degC*2"), anon(K, model.mag_int(2), "K*2"), anon(C, model.mag_int(3), "degC*3"),
+            model.prefixed(P["Milli"], K), model.prefixed(P["Milli"], C), anon(K, model.mag_ratio(5, 7), "K*5/7"),
+            anon(C, model.mag_ratio(5, 7), "degC*5/7"), anon(F, model.mag_int(2), "degF*2")]
     if tier == "quick":
-        return {"length": length[:13], "time": time[:9], "angle": angle[:6]}
-    return {"length": length, "time": time, "angle": angle, "data": data}
+        return {"length": length[:13], "time": time[:9], "angle": angle[:6], "temperature": temp[:8]}
+    return {"length": length, "time": time, "angle": angle, "data": data, "temperature": temp}
 
 
 def all_rational(units):
